@@ -137,6 +137,9 @@ func (e *Exec) abort(kind, format string, args ...interface{}) {
 
 func (e *Exec) unsupported(fr *frame, format string, args ...interface{}) {
 	msg := fmt.Sprintf(format, args...)
+	if len(msg) > 400 {
+		msg = msg[:400] + "..."
+	}
 	where := ""
 	if fr != nil {
 		where = " at " + fr.pos() + " in " + fr.fn.String()
@@ -368,7 +371,11 @@ func (e *Exec) visitInstr(fr *frame, instr ssa.Instruction) continuation {
 			defer func() {
 				if r := recover(); r != nil {
 					if pa, ok := r.(pathAbort); ok && (pa.kind == "unsupported") {
-						fr.set(v, Opaque{pa.msg})
+						msg := pa.msg
+						if len(msg) > 300 {
+							msg = msg[:300] + "..."
+						}
+						fr.set(v, Opaque{msg})
 						return
 					}
 					panic(r)
